@@ -10,8 +10,9 @@ def jobs(tier):
         for td in ((0, 1, 3) if tier == 'quick' else (0, 1, 2, 3, 4)):
             out.append(Job('admit-len%d-ttl%d' % (pl, td), 'ctrl.cpp', 'h_c28_admission', [pl, td], reach=['refused'] + (['accepted'] if pl <= 64 else []), snippets=SN, redirect=R, stream_sink=True, timeout=1500, bounds='payload %d B, TTL text of %d characters' % (pl, td)))
     for tm in (0, 1, 2):
-        out.append(Job('rate-store-tokens%d' % tm, 'ctrl.cpp', 'h_c28_rate', [7, 0, tm], reach=['rated'], snippets=SN, redirect=R, stream_sink=True, timeout=3000, max_paths=2000000, bounds='7 STOREs from one address, TOKEN header mode %d (0 none, 1 a different value each time, 2 the same value)' % tm))
+        out.append(Job('rate-store-tokens%d' % tm, 'ctrl.cpp', 'h_c28_rate', [7, 0, tm], reach=['rated', 'accepted', 'limited'], snippets=SN, redirect=R, stream_sink=True, timeout=3000, max_paths=2000000, bounds='7 STOREs from one address, TOKEN header mode %d (0 none, 1 a different value each time, 2 the same value)' % tm))
+    out.append(Job('rate-fetch-tokens1-short-gaps', 'ctrl.cpp', 'h_c28_rate', [13, 1, 5], reach=['rated', 'accepted', 'limited'], snippets=SN, redirect=R, stream_sink=True, timeout=3000, max_paths=2000000, bounds='13 streamed FETCHes from one address with a different TOKEN header each, gaps of 0..3 s'))
     if tier == 'thorough':
         for tm in (0, 1):
-            out.append(Job('rate-fetch-tokens%d' % tm, 'ctrl.cpp', 'h_c28_rate', [13, 1, tm], reach=['rated'], snippets=SN, redirect=R, stream_sink=True, timeout=3300, max_paths=2000000, bounds='13 streamed FETCHes, TOKEN header mode %d' % tm))
+            out.append(Job('rate-fetch-tokens%d' % tm, 'ctrl.cpp', 'h_c28_rate', [13, 1, tm], reach=['rated', 'accepted', 'limited'], snippets=SN, redirect=R, stream_sink=True, timeout=3300, max_paths=2000000, bounds='13 streamed FETCHes, TOKEN header mode %d' % tm))
     return out
